@@ -65,13 +65,15 @@ func namesCovered(prev, cur *DataEnv) bool {
 }
 
 // warmRun renders twice on one context with a Reset in between and returns the second observation.
-func warmRun(key string, data *DataEnv) Obs {
+// With failAt > 0 the first render's writer refuses its failAt-th write (after one byte of it): a
+// render that was cut short leaves nothing behind a Reset either.
+func warmRun(key string, data *DataEnv, failAt int) Obs {
 	var second bytes.Buffer
 	obs := guarded(10*time.Second, func() ([]byte, error) {
 		ctx := dyntpl.NewCtx()
 		data.Apply(ctx)
-		var first bytes.Buffer
-		_ = dyntpl.Write(&first, key, ctx)
+		first := &faultWriter{k: failAt, short: 1}
+		_ = dyntpl.Write(first, key, ctx)
 		ctx.Reset()
 		data.Apply(ctx)
 		err := dyntpl.Write(&second, key, ctx)
@@ -222,6 +224,20 @@ func genInterpCase(id int, rng *RNG, prof *Profile) *interpCase {
 		}
 		g.tag("scenario:condition-against-indexed-element")
 	}
+	if prof.Regions && rng.Chance(10) {
+		// a bound tag that opens with static text, then a value printed raw; the warm run cuts the
+		// first render at the raw value's write: nothing of that may show after the Reset
+		kind := prof.RegionKind
+		if kind == "" {
+			kind = []string{"jsonquote", "htmlescape", "urlencode"}[rng.Intn(3)]
+		}
+		if o, ok := g.pickOperand("string", "bytes", "int"); ok {
+			head := []*Ast{{K: "region", Region: kind, Body: []*Ast{{K: "text", Text: []byte(`a b&"c"<d>/`)}}}, {K: "print", Path: o.Path, RawMod: true}, {K: "text", Text: g.marker()}}
+			ic.ast = append(head, ic.ast...)
+			vc.Meta["cut_at"] = 2
+			g.tag("scenario:raw-print-after-bound-tag")
+		}
+	}
 	if g.longPath != "" && rng.Chance(75) {
 		// the long value printed: plainly, through an escape letter or modifier, and inside a bound
 		// tag with prefix and suffix (first thing in the template as often as not)
@@ -295,6 +311,26 @@ func genInterpCase(id int, rng *RNG, prof *Profile) *interpCase {
 		ic.ast = append(ic.ast, items...)
 		g.tag("scenario:variable-reassigned-longer")
 	}
+	if prof.Regions && prof.Includes && rng.Chance(12) {
+		// an included template that ends through exit inside a bound tag of the including template:
+		// only the include ends, the tag stays open for what follows
+		kind := prof.RegionKind
+		if kind == "" {
+			kind = []string{"jsonquote", "htmlescape", "urlencode"}[rng.Intn(3)]
+		}
+		sub := []*Ast{{K: "text", Text: []byte("hi ")}, {K: "exit"}, {K: "text", Text: g.marker()}}
+		if rng.Bool() {
+			sub = []*Ast{{K: "text", Text: []byte("hi ")}, {K: "cloop", Var: g.newVar("i"), Init: "0", InitLit: true, Op: "<", Lim: "2", LimLit: true, Step: "++", Body: []*Ast{{K: "text", Text: g.marker()}, {K: "exit"}}}, {K: "text", Text: g.marker()}}
+		}
+		if key, ok := addSub(sub); ok {
+			reg := &Ast{K: "region", Region: kind, Body: []*Ast{{K: "text", Text: []byte(`"a" `)}, {K: "include", IncKw: []string{"include", "."}[rng.Intn(2)], Names: []string{key}}, {K: "text", Text: []byte(` said "ok" & <b>/c d`)}}}
+			ic.ast = append(ic.ast, reg, &Ast{K: "text", Text: g.marker()})
+			if g.budget < 6 {
+				g.budget = 6
+			}
+			g.tag("scenario:exit-in-include-inside-bound-tag")
+		}
+	}
 	if prof.W["exit"] > 0 && rng.Chance(12) {
 		// exit behind a lazybreak (or a continue-less break form) in one block of a loop body:
 		// the template stops at the exit, whatever the loop had pending
@@ -319,6 +355,50 @@ func genInterpCase(id int, rng *RNG, prof *Profile) *interpCase {
 			g.budget = 8
 		}
 		g.tag("scenario:exit-behind-lazybreak")
+	}
+	if prof.BreakN && g.data.User.Present && g.data.User.HasFinance && len(g.data.User.History) >= 2 && len(g.data.User.History) <= 8 && rng.Chance(12) {
+		// a range loop whose iteration sees a lazybreak and, later and at body level, a continue:
+		// the loop ends with that iteration
+		kv, vv := g.newVar("k"), g.newVar("v")
+		lb := &Ast{K: "lazybreak", Cond: &ACond{L: kv, Op: "==", R: fmt.Sprint(rng.Intn(2)), RLit: true}}
+		if rng.Bool() {
+			lb = &Ast{K: "if", Cond: lb.Cond, Then: []*Ast{{K: "lazybreak"}}}
+		}
+		co := &Ast{K: "continue"}
+		if rng.Bool() {
+			co.Cond = &ACond{L: kv, Op: ">=", R: "0", RLit: true}
+		}
+		loop := &Ast{K: "rloop", Key: kv, Var: vv, Src: "user.Finance.History", Body: []*Ast{{K: "text", Text: []byte("<")}, {K: "print", Path: kv}, lb, {K: "text", Text: g.marker()}, co, {K: "text", Text: g.marker()}}}
+		if rng.Bool() {
+			loop.Sep, loop.SepKw = ",", "sep"
+		}
+		ic.ast = append(ic.ast, loop, &Ast{K: "text", Text: g.marker()})
+		g.tag("scenario:range-loop-lazybreak-then-continue")
+	}
+	if prof.BreakN && rng.Chance(15) {
+		// break N / lazybreak N written in the else branch of a loop that does not iterate, two
+		// loops deep: it names the two enclosing loops (the loop it is written in has ended)
+		ov, mv, zv := g.newVar("i"), g.newVar("i"), g.newVar("i")
+		ctl := &Ast{K: []string{"break", "lazybreak"}[rng.Intn(2)], N: 2 + rng.Intn(2)}
+		var inner *Ast
+		if rng.Chance(65) {
+			inner = &Ast{K: "cloop", Var: zv, Init: "0", InitLit: true, Op: "<", Lim: "0", LimLit: true, Step: "++", Body: []*Ast{{K: "text", Text: g.marker()}}, HasElse: true,
+				Else: []*Ast{{K: "text", Text: g.marker()}, ctl}}
+		} else {
+			inner = &Ast{K: "rloop", Var: g.newVar("v"), Src: []string{"nosuch.List", "absent"}[rng.Intn(2)], Body: []*Ast{{K: "text", Text: g.marker()}}, HasElse: true,
+				Else: []*Ast{{K: "text", Text: g.marker()}, ctl}}
+		}
+		if rng.Chance(30) {
+			inner.Else = []*Ast{{K: "text", Text: g.marker()}, {K: "if", Cond: &ACond{L: mv, Op: ">=", R: "0", RLit: true}, Then: []*Ast{ctl}}}
+		}
+		mid := &Ast{K: "cloop", Var: mv, Init: "0", InitLit: true, Op: "<", Lim: "3", LimLit: true, Step: "++", Body: []*Ast{{K: "print", Path: mv}, inner, {K: "text", Text: []byte(".")}}}
+		outer := &Ast{K: "cloop", Var: ov, Init: "0", InitLit: true, Op: "<", Lim: "3", LimLit: true, Step: "++", Body: []*Ast{{K: "text", Text: []byte("[")}, mid, {K: "text", Text: []byte("]")}}}
+		wrap := &Ast{K: "cloop", Var: g.newVar("i"), Init: "0", InitLit: true, Op: "<", Lim: "2", LimLit: true, Step: "++", Body: []*Ast{outer, {K: "text", Text: []byte("|")}}}
+		ic.ast = append(ic.ast, wrap, &Ast{K: "text", Text: g.marker()})
+		if g.budget < 12 {
+			g.budget = 12
+		}
+		g.tag("scenario:break-in-for-else-two-deep")
 	}
 	if prof.Includes && prof.BreakN && rng.Chance(20) {
 		// an include rendered while a break depth is pending for the enclosing loops: after
@@ -365,6 +445,11 @@ func genInterpCase(id int, rng *RNG, prof *Profile) *interpCase {
 		// template that reads the included loop's variable during and after its own run
 		iv, jv := g.newVar("i"), g.newVar("i")
 		sub := []*Ast{{K: "cloop", Var: iv, Init: "0", InitLit: true, Op: "<", Lim: fmt.Sprint(2 + rng.Intn(2)), LimLit: true, Step: "++", Body: []*Ast{{K: "print", Path: iv}}}}
+		if rng.Chance(40) {
+			// the included loop is abandoned through exit: its variable keeps the value it had
+			sub[0].Body = append(sub[0].Body, &Ast{K: "if", Cond: &ACond{L: iv, Op: "==", R: "1", RLit: true}, Then: []*Ast{{K: "exit"}}})
+			g.tag("scenario:included-loop-abandoned-by-exit")
+		}
 		if key, ok := addSub(sub); ok {
 			l2 := &Ast{K: "cloop", Var: jv, Init: "0", InitLit: true, Op: "<", Lim: "2", LimLit: true, Step: "++", Sep: ";", SepKw: "sep",
 				Body: []*Ast{{K: "print", Path: iv}, {K: "print", Path: jv}}}
@@ -483,14 +568,21 @@ func runInterp(o *Options, prop string, prof *Profile, quickN, thoroughN int, co
 		// contexts are pooled in production: the same render on a context that already rendered this
 		// case and was reset must agree with the render on a new one (judged by the model and the
 		// reference semantics below)
-		if w := warmRun(key, vc.Data); !vc.Runs[0].Obs.Hang && !w.Hang {
+		failAt := 0
+		if vc.ID%3 != 0 {
+			failAt = 1 + (vc.ID/3)%8
+		}
+		if k, ok := vc.Meta["cut_at"].(int); ok {
+			failAt = k
+		}
+		if w := warmRun(key, vc.Data, failAt); !vc.Runs[0].Obs.Hang && !w.Hang {
 			f := vc.Runs[0].Obs
-			res.Hist("warm:run")
+			res.Hist(fmt.Sprintf("warm:run:first-render-cut-at-write=%d", failAt))
 			if string(w.Out) != string(f.Out) || w.Err != f.Err || (w.Panic != "") != (f.Panic != "") {
 				res.OracleFails++
 				res.AddViolation(&Violation{Kind: "failing-input", Class: "warm:differs-from-new",
 					What: fmt.Sprintf("template %q on a context that rendered it once before and was Reset gives %q err=%q %s; on a new context %q err=%q", vc.Src, w.Out, w.Err, firstLine(w.Panic), f.Out, f.Err),
-					Replay: map[string]any{"template": vc.Src, "keep_fmt": vc.KeepFmt, "data_slots": vc.Data.Slots(), "includes": vc.Meta, "how": "NewCtx; set data; render; ctx.Reset(); set data; render",
+					Replay: map[string]any{"template": vc.Src, "keep_fmt": vc.KeepFmt, "data_slots": vc.Data.Slots(), "includes": vc.Meta, "how": fmt.Sprintf("NewCtx; set data; render (writer refusing write %d, 0 = none); ctx.Reset(); set data; render", failAt),
 						"observed": string(w.Out), "observed_err": w.Err, "observed_panic": w.Panic, "new_context": string(f.Out), "new_context_err": f.Err}})
 			}
 		}
